@@ -19,7 +19,7 @@ ID = "C12"
 LEVEL = "model_checking"
 RULE = (
     "group definitions: all 5 partitions of {1,2,3} x per block kind in {plain, merge, single-instance(singletons)} with at most one non-plain block (thorough: any) x every block order x 3 naming schemes "
-    "(68 definitions quick); bases: all predictions of G1(3,3) x 8 refs (thorough: G1(3,3)^2, G2(2,2,3) x 16) x input type {UNMATCHED, MATCHED, SEMANTIC}; repeated evaluate() on the same arrays; "
+    "(68 definitions quick); bases: all predictions of G1(3,3) x 8 refs (thorough: G1(3,3)^2, G2(2,2,3) x 16) x input type {UNMATCHED, MATCHED, SEMANTIC}; repeated evaluate() on the same arrays; every fifth case additionally with labels {1,2,3} -> {300, 2, 65535} in uint16; "
     "rejection: every proper subset S of {1,2,3} as the only group x all pairs of G1(3,3) x input types (must raise iff a label outside S is present), and length-2 maps over {-3..3} "
     "in int8/int64 semantic input (must raise iff a negative or undefined label is present). non-trivial = >= 2 groups and both restricted arrays non-empty for some group; distinct by (pair, definition, input type)"
 )
@@ -148,6 +148,9 @@ def cmp(a, b):
     return d
 
 
+LMAP = {1: 300, 2: 2, 3: 65535}  # label values beyond one byte / at the top of uint16, with a gap
+
+
 def run_case(case, acc):
     kind = case["kind"]
     if kind == "reject":
@@ -158,8 +161,16 @@ def run_case(case, acc):
     pred, ref = sc.grid(case["pi"], shape, case["k"]), sc.grid(case["ri"], shape, case["k"])
     itype = case["itype"]
     defn = definitions(case["tier"])[case["def"]]
+    if case.get("lmap") is None and "lmap" not in case and (case["pi"] + case["ri"] + case["def"]) % 5 == 0:
+        run_case({**case, "lmap": True}, acc)
+    if case.get("lmap"):
+        # unsigned also for semantic input: a single-instance group is evaluated as matched input, which (like ungrouped matched
+        # input) only accepts unsigned arrays - signed semantic maps with such a group are rejected consistently by both
+        dt = "uint16"
+        pred, ref = sc.relabel(pred, LMAP, dt), sc.relabel(ref, LMAP, dt)
+        defn = [([LMAP[l] for l in labels], k) for labels, k in defn]
     names = NAMES[(case["def"] + case["pi"]) % len(NAMES)]
-    acc.case("diff", shape, case["pi"], case["ri"], case["def"], itype)
+    acc.case("diff", shape, case["pi"], case["ri"], case["def"], itype, bool(case.get("lmap")))
     tag = f"{itype} groups={[(names[i], l, k) for i, (l, k) in enumerate(defn)]} pred={pred.tolist()} ref={ref.tolist()}"
     p0, r0 = pred.copy(), ref.copy()
     acc.step()
